@@ -383,6 +383,21 @@ def _truthiness_test(t: ast.expr) -> bool:
     return _truthiness_operand(t) is not None
 
 
+def _is_none_test(t: ast.expr) -> bool:
+    """`x is None` / `x is not None` (possibly under `not`): decides on absence only, never on emptiness."""
+    if isinstance(t, ast.UnaryOp) and isinstance(t.op, ast.Not):
+        return _is_none_test(t.operand)
+    return isinstance(t, ast.Compare) and len(t.ops) == 1 and isinstance(t.ops[0], (ast.Is, ast.IsNot)) \
+        and isinstance(t.comparators[0], ast.Constant) and t.comparators[0].value is None
+
+
+def _optional_container_ann(ann: Optional[str]) -> bool:
+    """Optional[list[...]] / Optional['Array[int]'] ...: a field for which None (absent) and an EMPTY container are two
+    different values."""
+    a = (ann or '').replace("'", '').replace('"', '').replace(' ', '')
+    return a.startswith('Optional[') and a[9:].split('[')[0] in ('list', 'List', 'set', 'Set', 'dict', 'Dict', 'Array')
+
+
 def _names_in(e: ast.AST, params: set[str], local: dict[str, ast.expr], _depth: int = 0) -> set[str]:
     """Constructor parameters an expression depends on (constructor locals resolved)."""
     out: set[str] = set()
@@ -654,13 +669,52 @@ def normalise_fn(fn: ast.FunctionDef, module: Optional[ast.Module] = None, cls: 
         isinstance(t, ast.Attribute) and _pure_self_chain(t) for t in (n.targets if isinstance(n, ast.Assign) else [n.target]))
         for n in ast.walk(fn))
     # (a)
+    # (i) `if c: n = A` (no else; n a plain local that is not a parameter) is `n = A if c else n` (c is evaluated once in
+    #     both forms, before the binding)
+    def cond_bind(stmts: list[ast.stmt]) -> list[ast.stmt]:
+        res: list[ast.stmt] = []
+        for st in stmts:
+            if isinstance(st, ast.If) and not st.orelse and len(st.body) == 1 and isinstance(st.body[0], ast.Assign) \
+                    and len(st.body[0].targets) == 1 and isinstance(st.body[0].targets[0], ast.Name) \
+                    and st.body[0].targets[0].id not in params:
+                nm = st.body[0].targets[0].id
+                val = ast.IfExp(test=st.test, body=st.body[0].value, orelse=ast.Name(id=nm, ctx=ast.Load()))
+                res.append(ast.fix_missing_locations(ast.copy_location(
+                    ast.Assign(targets=[ast.Name(id=nm, ctx=ast.Store())], value=val), st)))
+                continue
+            if isinstance(st, (ast.If, ast.For, ast.While, ast.With)):
+                st.body = cond_bind(st.body)
+                if getattr(st, 'orelse', None):
+                    st.orelse = cond_bind(st.orelse)
+            res.append(st)
+        return res
+    fn.body = cond_bind(fn.body)
+    # (a)
     if not stores_self:
         cnt = _assigned_names(fn)
+        # names bound more than once are handled SEQUENTIALLY when every binding is a simple assignment at the top level
+        # of the body (no binding inside a branch or loop, no closure that could see a later binding)
+        top_cnt: dict[str, int] = {}
+        for st in fn.body:
+            if isinstance(st, ast.Assign) and len(st.targets) == 1 and isinstance(st.targets[0], ast.Name):
+                top_cnt[st.targets[0].id] = top_cnt.get(st.targets[0].id, 0) + 1
+        has_closure = any(isinstance(n, (ast.Lambda, ast.FunctionDef, ast.AsyncFunctionDef)) for st in fn.body for n in ast.walk(st))
+        seq = {n for n, k in top_cnt.items() if k > 1 and cnt.get(n) == k and n not in params and not has_closure}
 
-        def inline(stmts: list[ast.stmt], alias: dict[str, ast.expr]) -> list[ast.stmt]:
+        def inline(stmts: list[ast.stmt], alias: dict[str, ast.expr], top: bool = False) -> list[ast.stmt]:
             alias = dict(alias)
             body: list[ast.stmt] = []
             for st in stmts:
+                if top and isinstance(st, ast.Assign) and len(st.targets) == 1 and isinstance(st.targets[0], ast.Name) \
+                        and st.targets[0].id in seq:
+                    val = _Subst(alias).visit(st.value)
+                    if _pure_self_chain(val) and isinstance(val, ast.Attribute):
+                        alias[st.targets[0].id] = val             # currently an alias of a pure read
+                    else:
+                        alias.pop(st.targets[0].id, None)         # from here on a computed local
+                        st.value = val
+                        body.append(st)
+                    continue
                 if isinstance(st, ast.Assign) and len(st.targets) == 1 and isinstance(st.targets[0], ast.Name) \
                         and st.targets[0].id not in params and cnt.get(st.targets[0].id) == 1 and _pure_self_chain(st.value) \
                         and isinstance(st.value, ast.Attribute):
@@ -680,7 +734,7 @@ def normalise_fn(fn: ast.FunctionDef, module: Optional[ast.Module] = None, cls: 
                 else:
                     body.append(_Subst(alias).visit(st) if alias else st)
             return body
-        fn.body = inline(fn.body, {})
+        fn.body = inline(fn.body, {}, True)
 
     # (b), (c), (g), (h), recursively through blocks
     def simple_assigns(body: list[ast.stmt]) -> Optional[dict[str, ast.expr]]:
@@ -777,7 +831,7 @@ def src_reads(e: ast.AST, src: str, env: dict[str, ast.expr], info: Optional['Cl
 
 
 COPYLIKE_METHODS = {'copy', 'copy_values', 'values', 'items', '__copy__', '__deepcopy__'}
-VALUE_CALLS = {'list', 'set', 'dict', 'tuple', 'frozenset', 'Vec', 'Array', 'sorted', 'attrs.evolve', 'attr.evolve',
+VALUE_CALLS = {'list', 'set', 'dict', 'tuple', 'frozenset', 'Vec', 'Array', 'sorted', 'intern', 'sys.intern', 'attrs.evolve', 'attr.evolve',
                'copy.copy', 'copy.deepcopy', 'dataclasses.replace'}
 _MODE_RANK = {'ident': 0, 'presence': 1, 'ordefault': 1, 'guard': 2, 'derived': 3}
 
@@ -818,9 +872,27 @@ def src_flows(e: ast.AST, src: str, env: dict[str, ast.expr], info: Optional['Cl
     if isinstance(e, ast.Constant):
         return out
     if isinstance(e, ast.IfExp):
+        fa = src_flows(e.body, src, env, info, classes, mode, _depth + 1)
+        fb = src_flows(e.orelse, src, env, info, classes, mode, _depth + 1)
+        if mode == 'ident' and len(fa) == 1 and fa == fb and fa[0][1] == 'ident' \
+                and set(src_reads(e.test, src, env, info)) <= {fa[0][0]}:
+            # `A(x) if T(x) else B(x)`, both branches carrying x itself and the test reading nothing but x: the value
+            # arrives whatever the test says (which FORM it arrives in — copied or shared — is the `how` of the row)
+            add(fa)
+            return out
         opnd = _truthiness_operand(e.test)
         if opnd is not None:
-            go(opnd, worse('presence'))
+            # bare truthiness of a field declared Optional[container] also sends the EMPTY container down the "absent"
+            # branch: not a presence test (the constant branch then loses the empty value)
+            fo = None
+            o2, hops = opnd, 0
+            while isinstance(o2, ast.Name) and o2.id in env and o2.id != src and hops < 8:
+                o2, hops = env[o2.id], hops + 1
+            fo = _self_attr(o2, src)
+            if fo is not None and info is not None and not _is_none_test(e.test) and _optional_container_ann(info.ann.get(fo)):
+                go(opnd, worse('guard'))
+            else:
+                go(opnd, worse('presence'))
         else:
             go(e.test, worse('guard'))
         go(e.body, mode)
@@ -830,6 +902,11 @@ def src_flows(e: ast.AST, src: str, env: dict[str, ast.expr], info: Optional['Cl
         if isinstance(e.op, ast.Or) and len(e.values) == 2 and (isinstance(e.values[1], ast.Constant)
                                                                  or ast.unparse(e.values[1]) in ('set()', '()', '[]', '{}')):
             go(e.values[0], worse('ordefault'))       # `x or default`: x itself, when truthy
+            return out
+        if isinstance(e.op, ast.And) and len(e.values) == 2 and isinstance(e.values[0], (ast.Name, ast.Attribute)):
+            # `x and B` is `B if x else x`
+            add(src_flows(ast.copy_location(ast.IfExp(test=e.values[0], body=e.values[1], orelse=e.values[0]), e),
+                          src, env, info, classes, mode, _depth + 1))
             return out
         if isinstance(e.op, ast.And):
             for x in e.values:
@@ -899,8 +976,11 @@ def elem_class(ann: Optional[str]) -> Optional[str]:
 
 
 class Census:
-    def __init__(self, label: str, info: ClassInfo) -> None:
+    def __init__(self, label: str, info: ClassInfo, an: Optional['CopyAnalysis'] = None) -> None:
         self.label, self.info = label, info
+        self.an = an
+        self.conditional: set[str] = set()          # fields whose row is the weaker branch of a conditional
+        self.cond_parts: dict[str, tuple[str, str]] = {}    # ... field -> (row of the one branch, row of the other)
         self.how: dict[str, str] = {}
         self.detail: dict[str, str] = {}
         self.srcs: dict[str, list[str]] = {}      # field -> fields of the SOURCE object the expression reads
@@ -912,6 +992,9 @@ class Census:
             flows: Optional[list[tuple[str, str]]] = None) -> None:
         if field not in self.info.fields:
             raise TranslateError(f'{self.label}: copy stores unknown field {field}')
+        if self.an is not None and self.an.joined:      # set while the argument of this call was classified
+            self.conditional.add(field)
+            self.an.joined = False
         self.how[field] = how
         self.detail[field] = expr if isinstance(expr, str) else ast.unparse(expr)
         self.srcs[field] = list(srcs) if srcs is not None else []
@@ -927,6 +1010,9 @@ class CopyAnalysis:
         self.censuses: list[Census] = []
         self.copy_values_how: Optional[str] = None
         self.src_class: str = ''          # class of the object `src` names in the expression being classified
+        self.post_tests: dict[str, list[list[str]]] = {}   # field -> guards of its post-construction stores (method being analysed)
+        self.joined = False               # set by classify when a conditional's branches differ and the weaker one is the row
+        self.join_parts: Optional[tuple[str, str]] = None    # ... and the two branch classifications
         self.rebind: dict[str, ast.expr] = {}   # `param = self.X` re-bindings of the method being analysed (sources only)
 
     # classification of an expression that reads from `src` (usually self): returns one of
@@ -948,13 +1034,49 @@ class CopyAnalysis:
                 return 'ctx'
             if _self_attr(a, src) is not None and (isinstance(b, ast.Constant) or ast.unparse(b) in ('set()', '()', '[]', '{}')):
                 return 'share'        # `self.f or default`: the flow census records that only truthy values survive
+            if _self_attr(a, src) is not None:
+                # `self.f or <expr>`: the original's own object whenever it is truthy — shared, whatever <expr> builds
+                self.classify(b, src, env, params, label)
+                return 'share'
             raise TranslateError(f'{label}: unrecognised `or` expression `{ast.unparse(e)}`')
+        if isinstance(e, ast.BoolOp) and isinstance(e.op, ast.And) and len(e.values) == 2 \
+                and (_self_attr(e.values[0], src) is not None or (isinstance(e.values[0], ast.Name) and e.values[0].id in env)):
+            # `x and B` is `B if x else x`: a FALSY x (None, but also an EMPTY container) is handed over as it is
+            a, b = e.values
+            return self.classify(ast.copy_location(ast.IfExp(test=a, body=b, orelse=a), e), src, env, params, label)
         if isinstance(e, ast.IfExp):
             body = self.classify(e.body, src, env, params, label)
             other = e.orelse
-            if not (isinstance(other, ast.Constant) or ast.unparse(other) in ('set()', '()', '[]', 'None')):
-                raise TranslateError(f'{label}: unrecognised else-branch `{ast.unparse(other)}`')
-            return body
+            if isinstance(other, ast.Constant) or ast.unparse(other) in ('set()', '()', '[]', 'None'):
+                return body
+            # both branches hand over something built from the original: the row is the WEAKER of the two (a copy in
+            # one branch does not help if the other branch shares).  Only exception: the test is exactly
+            # `isinstance(<the field the other branch shares>, <container type>)` — then the shared value is the
+            # non-container alternative of the field's declared union (a str), an atom.  Any further conjunct
+            # (`x and isinstance(x, list)`: an EMPTY list takes the sharing branch) voids the exception.
+            oth = self.classify(other, src, env, params, label)
+            a, b, test = body, oth, e.test
+            if isinstance(test, ast.UnaryOp) and isinstance(test.op, ast.Not):
+                a, b, test, other = oth, body, test.operand, e.body
+            def _res(x: ast.expr) -> ast.expr:
+                hops = 0
+                while isinstance(x, ast.Name) and x.id in env and hops < 8:
+                    x, hops = env[x.id], hops + 1
+                return x
+            if b == 'share' and isinstance(test, ast.Call) and isinstance(test.func, ast.Name) and test.func.id == 'isinstance' \
+                    and len(test.args) == 2 and not test.keywords and ast.unparse(test.args[1]) in ('list', 'dict', 'set') \
+                    and _self_attr(_res(test.args[0]), src) is not None \
+                    and _self_attr(_res(test.args[0]), src) == _self_attr(_res(other), src):
+                return a
+            order = ['share', 'share-elems', 'shallow', 'copycall', 'deep-ctor', 'deep-flat', 'deep']
+            if 'partial' in (body, oth):
+                return 'partial'
+            if body not in order or oth not in order:
+                raise TranslateError(f'{label}: cannot combine the branches of `{ast.unparse(e)[:70]}` ({body} / {oth})')
+            if body != oth:
+                self.joined = True
+                self.join_parts = (body, oth)
+            return min(body, oth, key=order.index)
         if isinstance(e, ast.Call):
             fn = e.func
             if isinstance(fn, ast.Attribute) and fn.attr == 'copy' and not e.keywords:
@@ -1031,6 +1153,23 @@ class CopyAnalysis:
             raise TranslateError(f'{label}: unrecognised comprehension element `{ast.unparse(elt)}`')
         raise TranslateError(f'{label}: unrecognised expression `{ast.unparse(e)}`')
 
+    def how_of(self, cen: 'Census', info: ClassInfo, field: str, e: ast.expr, src: str, env: dict[str, ast.expr],
+               params: set[str], wrap: str, label: str) -> str:
+        """classify + final_how for one field; when the expression is a conditional whose branches differ, the row is the
+        join (weaker) of the two BRANCH ROWS and the pair is recorded (Gen `cond_rows`; the kernel re-computes the join:
+        obligation conditional_rows_are_joins)."""
+        self.join_parts = None
+        how = self.final_how(info, field, self.classify(e, src, env, params, label), wrap, label)
+        if self.join_parts is not None:
+            a, b = self.join_parts
+            self.join_parts = None
+            ha, hb = self.final_how(info, field, a, wrap, label), self.final_how(info, field, b, wrap, label)
+            rank = {'HShare': 0, 'HShallow': 1, 'HDeep': 2}
+            if ha in rank and hb in rank:
+                how = ha if rank[ha] <= rank[hb] else hb
+                cen.cond_parts[field] = (ha, hb)
+        return how
+
     def final_how(self, info: ClassInfo, field: str, arg: str, wrap: str, label: str) -> str:
         kind = kind_of(info.name, field, info.ann.get(field))
         if arg == 'ctx' or (kind == 'KCtx' and arg in ('share', 'param')):
@@ -1055,7 +1194,7 @@ class CopyAnalysis:
     def ctor_census(self, label: str, cname: str, call: ast.Call, src: str, env: dict[str, ast.expr], params: set[str],
                     post: list[tuple[str, ast.expr]]) -> Census:
         info = self.classes[cname]
-        cen = Census(label, info)
+        cen = Census(label, info, self)
         if len(call.args) > len(info.params):
             raise TranslateError(f'{label}: too many positional arguments')
         bound: dict[str, ast.expr] = {}
@@ -1099,7 +1238,7 @@ class CopyAnalysis:
                 continue
             used.add(p)
             a = bound[p]
-            how = self.final_how(info, field, self.classify(a, src, env, params, label), wrap, label)
+            how = self.how_of(cen, info, field, a, src, env, params, wrap, label)
             flows = src_flows(a, src, fenv, info, self.classes)
             if ordef:
                 flows = [(x, 'ordefault' if m == 'ident' else m) for x, m in flows]
@@ -1111,11 +1250,27 @@ class CopyAnalysis:
             if p not in used:
                 raise TranslateError(f'{label}: constructor parameter {p} feeds no field')
         for field, e in post:
-            cen.set(field, self.final_how(info, field, self.classify(e, src, env, params, label), 'direct', label), e,
-                    src_reads(e, src, {**self.rebind, **env}, info), src_flows(e, src, {**self.rebind, **env}, info, self.classes))
+            cen.set(field, self.how_of(cen, info, field, e, src, env, params, 'direct', label), e,
+                    src_reads(e, src, {**self.rebind, **env}, info),
+                    src_flows(e, src, {**self.rebind, **env}, info, self.classes) + self.post_guard_flows(field, info, src, {**self.rebind, **env}))
         self.src_class = saved
         self.censuses.append(cen)
         return cen
+
+    def post_guard_flows(self, field: str, info: ClassInfo, src: str, fenv: dict[str, ast.expr]) -> list[tuple[str, str]]:
+        """A field stored after construction only under `if <test>:` keeps the constructor's default when the test fails.
+        A test of the stored field ITSELF must therefore be exactly `self.f is not None` (absence is what the default
+        stands for); any other test of it (`if self.f:` also skips the EMPTY container, a comparison skips some values)
+        is a guard flow of the field into itself: the value is lost where the test fails.  Tests of other fields
+        (`self.is_disp`) describe the states the object can be in and are recorded as post_guards only."""
+        out: list[tuple[str, str]] = []
+        for gs in self.post_tests.get(field, []):
+            for g in gs:
+                t = ast.parse(g, mode='eval').body
+                if field in src_reads(t, src, fenv, info) and not (_is_none_test(t) and _self_attr(_truthiness_operand(t) or t, src) == field):
+                    if (field, 'guard') not in out:
+                        out.append((field, 'guard'))
+        return out
 
     def shallow_census(self, label: str, cname: str, call: ast.Call, src: str, params: set[str],
                        src_expr: Optional[ast.expr] = None, post: Optional[list[tuple[str, ast.expr]]] = None,
@@ -1124,7 +1279,7 @@ class CopyAnalysis:
         keyword is the very same reference as in x (HShare, built from the field itself); keyword fields are
         classified like constructor arguments."""
         info = self.classes[cname]
-        cen = Census(label, info)
+        cen = Census(label, info, self)
         cen.builder = 'shallow'
         through_ctor = ast.unparse(call.func) != 'copy.copy'
         for f in info.fields:
@@ -1144,12 +1299,13 @@ class CopyAnalysis:
             if kw.arg not in info.feeds:
                 raise TranslateError(f'{label}: shallow builder keyword {kw.arg} feeds no field')
             field, wrap = info.feeds[kw.arg]
-            cen.set(field, self.final_how(info, field, self.classify(kw.value, src, env, params, label), wrap, label), kw.value,
+            cen.set(field, self.how_of(cen, info, field, kw.value, src, env, params, wrap, label), kw.value,
                     src_reads(kw.value, src, {**self.rebind, **env}, info),
                     src_flows(kw.value, src, {**self.rebind, **env}, info, self.classes))
         for field, e in (post or []):
-            cen.set(field, self.final_how(info, field, self.classify(e, src, env, params, label), 'direct', label), e,
-                    src_reads(e, src, {**self.rebind, **env}, info), src_flows(e, src, {**self.rebind, **env}, info, self.classes))
+            cen.set(field, self.how_of(cen, info, field, e, src, env, params, 'direct', label), e,
+                    src_reads(e, src, {**self.rebind, **env}, info),
+                    src_flows(e, src, {**self.rebind, **env}, info, self.classes) + self.post_guard_flows(field, info, src, {**self.rebind, **env}))
         self.src_class = saved
         self.censuses.append(cen)
         return cen
@@ -1229,6 +1385,8 @@ class CopyAnalysis:
                             # re-binding a parameter (e.g. `des_id = self.id`, `vmf = self.vmf`): still a parameter
                             self.rebind[t.id] = st.value
                         else:
+                            if t.id in env:
+                                raise TranslateError(f'{label}: local `{t.id}` bound more than once')
                             env[t.id] = st.value
                         continue
                     if newvar is not None and _self_attr(t, newvar) is not None:
@@ -1245,21 +1403,39 @@ class CopyAnalysis:
                     if not reads_self_only:
                         raise TranslateError(f'{label}: unrecognised guard `{test}`')
                     if st.orelse:
-                        # both branches must store the same fields; the isinstance(list) branch decides for containers
-                        if not test.startswith('isinstance(self.'):
-                            raise TranslateError(f'{label}: unrecognised if/else `{test}`')
-                        scan(st.body, guarded)         # both branches store the field: not conditional
-                        for s2 in st.orelse:
-                            if isinstance(s2, ast.Return) and isinstance(s2.value, ast.Name) and s2.value.id == newvar:
-                                continue      # both branches end in `return <the copy>` (guard-clause form)
-                            if not (isinstance(s2, ast.Assign) and newvar and _self_attr(s2.targets[0], newvar)
-                                    and _self_attr(s2.value, 'self') == _self_attr(s2.targets[0], newvar)):
-                                raise TranslateError(f'{label}: unrecognised else-branch `{ast.unparse(s2)}`')
+                        # both branches must store the same fields of the copy (each branch: stores `new.f = v`, possibly
+                        # followed by `return new`): field f gets the conditional value `A if test else B`, which
+                        # `classify` reads as the WEAKER of the two branches (exception: exactly `isinstance(self.f, list)`
+                        # with the other branch sharing self.f, see there)
+                        def stores(blk: list[ast.stmt]) -> dict[str, ast.expr]:
+                            res: dict[str, ast.expr] = {}
+                            for k2, s2 in enumerate(blk):
+                                if isinstance(s2, ast.Return) and isinstance(s2.value, ast.Name) and s2.value.id == newvar \
+                                        and k2 == len(blk) - 1:
+                                    continue      # both branches end in `return <the copy>` (guard-clause form)
+                                if isinstance(s2, ast.Expr) and isinstance(s2.value, ast.Constant):
+                                    continue
+                                f2 = _self_attr(s2.targets[0], newvar) if isinstance(s2, ast.Assign) and newvar \
+                                    and len(s2.targets) == 1 else None
+                                if f2 is None or f2 in res:
+                                    raise TranslateError(f'{label}: unrecognised statement in if/else `{ast.unparse(s2)[:60]}`')
+                                res[f2] = s2.value  # type: ignore[union-attr]
+                            return res
+                        sa, sb = stores(st.body), stores(st.orelse)
+                        if set(sa) != set(sb) or not sa:
+                            raise TranslateError(f'{label}: the branches of `if {test}` store different fields '
+                                                 f'({sorted(sa)} / {sorted(sb)})')
+                        for f2 in sa:
+                            cond = ast.fix_missing_locations(ast.copy_location(
+                                ast.IfExp(test=st.test, body=sa[f2], orelse=sb[f2]), st))
+                            post.append((f2, cond))
+                            post_guards.setdefault(f2, []).append(list(guarded))
                     else:
                         scan(st.body, guarded + [test])
                     continue
                 raise TranslateError(f'{label}: unsupported statement `{ast.unparse(st)[:60]}` (line {st.lineno})')
         scan(fn.body, [])
+        self.post_tests = post_guards
         if len(shallow) + (call is not None) + raw_new > 1:
             raise TranslateError(f'{label}: more than one way of building the copy')
         # a field stored after construction only under `if <test on self>:` keeps the constructor's default otherwise
@@ -1276,12 +1452,13 @@ class CopyAnalysis:
             cen.post_guards = pg
             return cen
         info = self.classes[cname]
-        cen = Census(label, info)
+        cen = Census(label, info, self)
         saved, self.src_class = self.src_class, cname
         for field, e in post:
-            cen.set(field, self.final_how(info, field, self.classify(e, 'self', env, params, label), 'direct', label), e,
+            cen.set(field, self.how_of(cen, info, field, e, 'self', env, params, 'direct', label), e,
                     src_reads(e, 'self', {**self.rebind, **env}, info),
-                    src_flows(e, 'self', {**self.rebind, **env}, info, self.classes))
+                    src_flows(e, 'self', {**self.rebind, **env}, info, self.classes)
+                    + self.post_guard_flows(field, info, 'self', {**self.rebind, **env}))
         self.src_class = saved
         cen.post_guards = pg
         self.censuses.append(cen)
@@ -1310,11 +1487,46 @@ class CopyAnalysis:
         self.src_class = ''
         self.copy_values_how = 'deep' if how in ('deep', 'deep-flat') else 'shallow'
         info = self.classes['EntityFixup']
-        cen = Census('EntityFixup_copy_values', info)
+        cen = Census('EntityFixup_copy_values', info, self)
         cen.set('_fixup', 'HDeep' if self.copy_values_how == 'deep' else 'HShallow', rets[0].value,
                 src_reads(rets[0].value, 'self', {}, info), src_flows(rets[0].value, 'self', {}, info, self.classes))
         cen.set('_matcher', 'HShare', 'rebuilt lazily by the constructor (cache)', ['_matcher'])
         self.censuses.append(cen)
+
+
+    def protocol_census(self, cname: str, label: str, which: str) -> Census:
+        """`copy.deepcopy(x)` / a pickle round trip of a class that customises NOTHING of the copy protocol: CPython's
+        generic protocol (copyreg.__reduce_ex__: a new object of the same class, every slot set to a deep copy /
+        unpickled value of the original's slot; immutable atoms come back as the same or an equal value) gives the row
+        HDeep for every mutable field and HShare for every immutable one, each from its own slot.  Only applies when
+        the class has no base class, declares __slots__ equal to its data fields and defines none of the hooks; a class
+        that defines __deepcopy__ is analysed like any copy method; any other hook fails closed."""
+        info = self.classes[cname]
+        cls = info.node
+        defined = {n.name for n in cls.body if isinstance(n, (ast.FunctionDef, ast.AsyncFunctionDef))}
+        defined |= {t.id for n in cls.body if isinstance(n, ast.Assign) for t in n.targets if isinstance(t, ast.Name)}
+        if which == 'deepcopy' and '__deepcopy__' in defined:
+            return self.method_census(cname, '__deepcopy__', label)
+        hooks = {'__deepcopy__', '__copy__', '__reduce__', '__reduce_ex__', '__getstate__', '__setstate__', '__getnewargs__',
+                 '__getnewargs_ex__', '__new__', '__init_subclass__', '__setattr__', '__getattribute__'}
+        if which == 'pickle':
+            hooks -= {'__deepcopy__', '__copy__'}      # the copy module's hooks: pickle does not look at them
+        if hooks & defined:
+            raise TranslateError(f'{label}: {cname} defines {sorted(hooks & defined)}: the generic copy protocol does not apply')
+        if cls.bases or cls.keywords or cls.decorator_list:
+            raise TranslateError(f'{label}: {cname} has base classes / decorators: the generic copy protocol census does not apply')
+        slots = _slots(cls)
+        if slots is None or sorted(slots) != sorted(info.fields):
+            raise TranslateError(f'{label}: {cname}.__slots__ {slots} are not the data fields {info.fields}')
+        cen = Census(label, info, self)
+        for f in info.fields:
+            kind = kind_of(cname, f, info.ann.get(f))
+            if kind in ('KCtx', 'KId'):
+                raise TranslateError(f'{label}: field {f} of kind {kind} under the generic copy protocol')
+            cen.set(f, 'HShare' if kind == 'KImm' else 'HDeep', f'{which} of self.{f} (generic copy protocol)', [f], [(f, 'ident')])
+        cen.builder = 'protocol'
+        self.censuses.append(cen)
+        return cen
 
 
 # ---------------------------------------------------------------------------------------------- Keyvalues + / += / extend
@@ -1461,6 +1673,113 @@ def kv_receivers(tree: ast.Module) -> dict:
     return out
 
 
+# ---------------------------------------------------------------------------------------------- __getstate__ / __setstate__
+def pickle_state(cls: ast.ClassDef, info: 'ClassInfo', classes: dict[str, 'ClassInfo']) -> dict:
+    """The pickling pair of a class: from which field each position of the state tuple is built (`put`, for the long and
+    the short form) and into which field each position is unpacked (`get`).  Recognised shapes (anything else fails closed):
+      __getstate__:  locals bound once to tuple displays; `return <tuple display or such a local>` at the end and/or inside
+                     one `if`; `*local` splices a local tuple; every element reads exactly one field of self, by identity
+                     (through value calls such as intern(), under a presence test of the same field);
+      __setstate__:  `(self.a, self.b, ..., *rest) = state`, then `if rest: (self.x, ...) = rest  else: self.x = <const> ...`
+                     (or a plain `(self.a, ...) = state`)."""
+    lab = cls.name
+    gs, ss = _method(cls, '__getstate__'), _method(cls, '__setstate__')
+    if len(gs.args.args) != 1 or len(ss.args.args) != 2:
+        raise TranslateError(f'{lab}: unexpected signature of __getstate__/__setstate__')
+    tuples: dict[str, list[ast.expr]] = {}
+    returns: list[list[ast.expr]] = []
+
+    def elems(e: ast.expr) -> list[ast.expr]:
+        if isinstance(e, ast.Name) and e.id in tuples:
+            return list(tuples[e.id])
+        if not isinstance(e, ast.Tuple):
+            raise TranslateError(f'{lab}.__getstate__: state is not a tuple display `{ast.unparse(e)[:50]}`')
+        out: list[ast.expr] = []
+        for x in e.elts:
+            if isinstance(x, ast.Starred):
+                if not (isinstance(x.value, ast.Name) and x.value.id in tuples):
+                    raise TranslateError(f'{lab}.__getstate__: unknown splice `{ast.unparse(x)}`')
+                out += tuples[x.value.id]
+            else:
+                out.append(x)
+        return out
+
+    def scan_get(body: list[ast.stmt], depth: int) -> None:
+        for st in body:
+            if isinstance(st, ast.Expr) and isinstance(st.value, ast.Constant):
+                continue
+            if isinstance(st, (ast.Assign, ast.AnnAssign)):
+                t = st.targets[0] if isinstance(st, ast.Assign) and len(st.targets) == 1 else getattr(st, 'target', None)
+                if isinstance(t, ast.Name) and st.value is not None and t.id not in tuples:
+                    tuples[t.id] = elems(st.value)
+                    continue
+                raise TranslateError(f'{lab}.__getstate__: unrecognised assignment `{ast.unparse(st)[:50]}`')
+            if isinstance(st, ast.Return) and st.value is not None:
+                returns.append(elems(st.value))
+                continue
+            if isinstance(st, ast.If) and depth == 0:
+                scan_get(st.body, 1)
+                scan_get(st.orelse, 1)
+                continue
+            raise TranslateError(f'{lab}.__getstate__: unsupported statement `{ast.unparse(st)[:50]}`')
+    scan_get(gs.body, 0)
+    if not 1 <= len(returns) <= 2:
+        raise TranslateError(f'{lab}.__getstate__: {len(returns)} return statements')
+
+    def field_of(e: ast.expr) -> str:
+        fl = src_flows(e, 'self', {}, info, classes)
+        names = {f for f, _m in fl}
+        if len(names) != 1 or any(m not in ('ident', 'presence') for _f, m in fl) or not any(m == 'ident' for _f, m in fl):
+            raise TranslateError(f'{lab}.__getstate__: state element `{ast.unparse(e)[:50]}` is not one field by identity ({fl})')
+        return names.pop()
+    puts = sorted(([field_of(e) for e in r] for r in returns), key=len)
+    put_long, put_short = puts[-1], puts[0]
+
+    state = ss.args.args[1].arg
+    get_short: list[str] = []
+    get_tail: list[str] = []
+    defaults: dict[str, str] = {}
+    rest: Optional[str] = None
+    body = [st for st in ss.body if not (isinstance(st, ast.Expr) and isinstance(st.value, ast.Constant))]
+
+    def targets(t: ast.expr) -> tuple[list[str], Optional[str]]:
+        if not isinstance(t, ast.Tuple):
+            raise TranslateError(f'{lab}.__setstate__: unrecognised target `{ast.unparse(t)[:50]}`')
+        names, star = [], None
+        for k, x in enumerate(t.elts):
+            if isinstance(x, ast.Starred) and isinstance(x.value, ast.Name) and k == len(t.elts) - 1:
+                star = x.value.id
+            elif _self_attr(x) is not None:
+                names.append(_self_attr(x))
+            else:
+                raise TranslateError(f'{lab}.__setstate__: unrecognised target element `{ast.unparse(x)[:50]}`')
+        return names, star  # type: ignore[return-value]
+    if not body or not (isinstance(body[0], ast.Assign) and len(body[0].targets) == 1 and isinstance(body[0].value, ast.Name)
+                        and body[0].value.id == state):
+        raise TranslateError(f'{lab}.__setstate__: the first statement does not unpack the state')
+    get_short, rest = targets(body[0].targets[0])
+    if rest is None:
+        if len(body) != 1:
+            raise TranslateError(f'{lab}.__setstate__: statements after the unpacking')
+    else:
+        if len(body) != 2 or not (isinstance(body[1], ast.If) and isinstance(body[1].test, ast.Name) and body[1].test.id == rest
+                                  and len(body[1].body) == 1 and isinstance(body[1].body[0], ast.Assign)
+                                  and isinstance(body[1].body[0].value, ast.Name) and body[1].body[0].value.id == rest):
+            raise TranslateError(f'{lab}.__setstate__: expected `if {rest}: (...) = {rest} else: defaults`')
+        get_tail, star2 = targets(body[1].body[0].targets[0])
+        if star2 is not None:
+            raise TranslateError(f'{lab}.__setstate__: nested splice')
+        for st in body[1].orelse:
+            f = _self_attr(st.targets[0]) if isinstance(st, ast.Assign) and len(st.targets) == 1 else None
+            if f is None or not isinstance(st.value, (ast.Constant, ast.UnaryOp)) or f in defaults:
+                raise TranslateError(f'{lab}.__setstate__: unrecognised default `{ast.unparse(st)[:50]}`')
+            defaults[f] = ast.unparse(st.value)
+        if sorted(defaults) != sorted(get_tail):
+            raise TranslateError(f'{lab}.__setstate__: the short form restores {sorted(defaults)}, the long form {sorted(get_tail)}')
+    return {'put': put_long, 'put_short': put_short if len(returns) == 2 else put_long, 'get': get_short + get_tail,
+            'get_short': get_short if rest is not None else get_short + get_tail, 'defaults': defaults}
+
+
 # ---------------------------------------------------------------------------------------------- main
 VMF_CLASSES = ['Camera', 'Cordon', 'VisGroup', 'Solid', 'UVAxis', 'DispVertex', 'Side', 'Entity', 'FixupValue', 'EntityFixup',
                'EntityGroup', 'Output']
@@ -1480,6 +1799,8 @@ def translate() -> tuple[str, dict]:
     an.method_census('EntityFixup', '__deepcopy__', 'EntityFixup_deepcopy')
     kan = CopyAnalysis(ktree, {'Keyvalues': kv_info})
     kan.method_census('Keyvalues')
+    kan.protocol_census('Keyvalues', 'Keyvalues_deepcopy', 'deepcopy')
+    kan.protocol_census('Keyvalues', 'Keyvalues_pickle', 'pickle')
     censuses = an.censuses + kan.censuses
     kv = kv_receivers(ktree)
     labels = [c.label for c in censuses]
@@ -1509,6 +1830,7 @@ def translate() -> tuple[str, dict]:
         side['builder'][c.label] = c.builder
         side.setdefault('post_guards', {})[c.label] = c.post_guards
         side.setdefault('class_of', {})[c.label] = c.info.name
+        side.setdefault('conditional', {})[c.label] = sorted(c.conditional)
     lines.append('Definition all_census : list (string * census) := [')
     lines.append(';\n'.join(f'  ("{c.label}", census_{c.label})' for c in censuses))
     lines.append('].')
@@ -1518,6 +1840,18 @@ def translate() -> tuple[str, dict]:
     lines.append('Definition all_flows : list (string * flowmap) := [')
     lines.append(';\n'.join(f'  ("{c.label}", flows_{c.label})' for c in censuses))
     lines.append('].')
+    # the pickling pair of Output (copy.copy / copy.deepcopy / pickle go through it)
+    ps = pickle_state(classes['Output'].node, classes['Output'], classes)
+    side['pickle_state'] = {'Output': ps}
+    sl = lambda l: '[' + '; '.join(f'"{x}"' for x in l) + ']'
+    lines += [f'Definition output_state_put : list string := {sl(ps["put"])}.',
+              f'Definition output_state_get : list string := {sl(ps["get"])}.',
+              f'Definition output_state_put_short : list string := {sl(ps["put_short"])}.',
+              f'Definition output_state_get_short : list string := {sl(ps["get_short"])}.']
+    lines.append('Definition cond_rows : list (string * string * how * how) := [')
+    lines.append(';\n'.join(f'  ("{c.label}", "{f}", {a}, {b})' for c in censuses for f, (a, b) in sorted(c.cond_parts.items())))
+    lines.append('].')
+    side['cond_rows'] = [[c.label, f, a, b] for c in censuses for f, (a, b) in sorted(c.cond_parts.items())]
     lines.append('Definition class_of_label : list (string * string) := [')
     lines.append(';\n'.join(f'  ("{c.label}", "{c.info.name}")' for c in censuses))
     lines.append('].')
